@@ -70,8 +70,13 @@ def check_C10(fx, eng, rep, tier):
     rep.trusted = ['clang 14 AST/CFG', 'field abstraction of the lock word', 'C01 invariant']
     # the downgrade is a plain store (word locks): it is a single atomic step only because nobody but the X holder writes the
     # word while X is set, i.e. every other write is certified on X = 0 (C01.ADM / C01.ROWS / C01.STORE of the same class)
-    _locks(fx, eng, rep, ALL_LOCKS, ['C10.', 'C07.CONV', 'MCS.CONV', 'MCS.UPG', 'MCS.DOWN', 'C01.ADM', 'C01.ROWS', 'C01.STORE'],
-           {'PessimisticLock': 8, 'OptimisticLock': 8, 'MCSLock': 6})
+    # MCSLock: the upgrade drains only the shared holders ahead of the SIX holder; that nobody else is inside rests on the
+    # joiners' waits (MCS.WAIT), the inherited flags (MCS.INH) and the drain reads (MCS.DRAIN)
+    res = _locks(fx, eng, rep, ALL_LOCKS, ['C10.', 'C07.CONV', 'MCS.CONV', 'MCS.UPG', 'MCS.DOWN', 'MCS.WAIT', 'MCS.INH', 'MCS.DRAIN', 'C01.ADM', 'C01.ROWS', 'C01.STORE', 'C01.MASK'],
+                 {'PessimisticLock': 8, 'OptimisticLock': 8, 'MCSLock': 6})
+    # a grant released twice clears the SIX / X bit of whoever holds it at that moment: the converted grant is only as safe as the typestate
+    import guards
+    guards.check_guards(fx, eng, rep, ALL_LOCKS, res, typestate_only=True)
 
 
 def check_C07(fx, eng, rep, tier):
@@ -117,7 +122,7 @@ def check_C13(fx, eng, rep, tier):
     m, sink = res['OptimisticLock']
     n = 0
     for it in sink.items:
-        take = it['rule'].startswith('C13.') or ('PrepareRead' in it['key'] and it['rule'].startswith(('C01.', 'C08.ACQ'))) or \
+        take = it['rule'].startswith('C13.') or ('PrepareRead' in it['key'] and it['rule'].startswith(('C01.', 'C08.ACQ', 'C03.ORDER'))) or \
             ('CompositeGuard' in it['key'] and it['rule'].startswith(('C03.', 'C07.', 'C01.ROWS')))
         if take:
             n += 1
@@ -145,7 +150,7 @@ def check_C03(fx, eng, rep, tier):
     for it in sink.items:
         # a validation that succeeds while the guard holds a shared grant relies on shared grants excluding exclusive ones:
         # the lock-mode rows of this class (admission, upgrade, downgrade, release) are premises of C03
-        if it['rule'].startswith(('C03.', 'C09.VAL', 'C09.FLOW', 'C01.ADM', 'C01.ROWS', 'C01.REL', 'C01.STORE', 'C10.UPG', 'C10.DOWN')):
+        if it['rule'].startswith(('C03.', 'C09.VAL', 'C09.FLOW', 'C01.ADM', 'C01.ROWS', 'C01.REL', 'C01.STORE', 'C01.MASK', 'C10.UPG', 'C10.DOWN')):
             n += 1
             getattr(rep, {'ok': 'ok', 'violated': 'violation', 'unsupported': 'unsupported'}[it['status']])(it['rule'], it['key'], it['loc'], it['detail'])
     for f in m.fns.values():
@@ -190,7 +195,7 @@ def check_C11(fx, eng, rep, tier):
                        'the premises of the hand argument that no later conflicting arrival is granted first.')
     rep.rule_text = 'C11.TAIL, MCS.PUB, MCS.INH, MCS.LINK, MCS.WAIT, MCS.CLR, MCS.DRAIN per function and path class'
     rep.trusted = ['clang 14 AST/CFG', 'field abstraction of lock and node words', 'hand argument DESIGN.md C11', 'addresses fit in 47 bits']
-    _locks(fx, eng, rep, ['MCSLock'], ['C11.', 'MCS.PUB', 'MCS.INH', 'MCS.LINK', 'MCS.WAIT', 'MCS.CLR', 'MCS.DRAIN', 'MCS.UPG', 'MCS.DOWN', 'MCS.CONV'], {'MCSLock': 20})
+    _locks(fx, eng, rep, ['MCSLock'], ['C11.', 'MCS.PUB', 'MCS.INH', 'MCS.LINK', 'MCS.WAIT', 'MCS.CLR', 'MCS.DRAIN', 'MCS.UPG', 'MCS.DOWN', 'MCS.CONV', 'C01.MASK'], {'MCSLock': 20})
 
 
 def check_C12(fx, eng, rep, tier):
@@ -203,7 +208,7 @@ def check_C12(fx, eng, rep, tier):
     rep.assumptions = ['not decided: stale pointers held by another thread (protocol-level argument)']
     # the recycle decision is taken on the word the release write certified: a release that clears more than its own
     # contribution (MCS.CLR) hands the node back while other members still refer to it
-    _locks(fx, eng, rep, ['MCSLock'], ['C12.', 'MCS.CLR'], {'MCSLock': 12})
+    _locks(fx, eng, rep, ['MCSLock'], ['C12.', 'MCS.CLR', 'C01.MASK'], {'MCSLock': 12})
 
 
 def check_C02(fx, eng, rep, tier):
@@ -214,7 +219,7 @@ def check_C02(fx, eng, rep, tier):
     rep.rule_text = 'C02.SPIN / C02.SPINFN / C02.HANDOFF / C02.PUBSTORE + C01.REL / MCS.CLR / C07.CONV'
     rep.trusted = ['clang 14 AST/CFG', 'field abstraction']
     rep.assumptions = ['liveness itself (fair schedules) is not decided; these are necessary conditions']
-    res = _locks(fx, eng, rep, ALL_LOCKS, ['C02.', 'C01.REL', 'MCS.CLR', 'C07.CONV', 'C01.ROWS'], {'PessimisticLock': 10, 'OptimisticLock': 14, 'MCSLock': 14})
+    res = _locks(fx, eng, rep, ALL_LOCKS, ['C02.', 'C01.REL', 'MCS.CLR', 'C07.CONV', 'C01.ROWS', 'C01.MASK'], {'PessimisticLock': 10, 'OptimisticLock': 14, 'MCSLock': 14})
     # a grant that is released twice (or never) leaves the word non-free for ever: the guard typestate is a necessary condition of progress
     import guards
     guards.check_guards(fx, eng, rep, ALL_LOCKS, res, typestate_only=True)
@@ -263,7 +268,7 @@ def check_C15(fx, eng, rep, tier):
                        'by the destructor only, GetHeartBeat returns a weak_ptr to it, and HeartBeater cannot be copied (no second owner of the control block).')
     rep.rule_text = 'C15.ORDER / C15.SYNC / C15.LIFE on ~HeartBeater, the claim loop, SetID, GetHeartBeat'
     rep.trusted = ['clang 14 CFG with implicit destructors', 'std::shared_ptr/weak_ptr semantics (expired <=> no owner)']
-    n = _take(rep, sink, ['C15.', 'C05.CLAIM', 'C05.WHO'])
+    n = _take(rep, sink, ['C15.', 'C05.CLAIM', 'C05.WHO', 'C14.FREE'])
     _thread_fns(rep, fx, ('id_manager.cpp',))
     rep.floor('C15 obligations', n, 8)
 
